@@ -32,11 +32,18 @@ META = dict(
               "bit-exact against gcc-compiled conversions",
     text="~27.6k distinct double bit patterns (all 255 float exponents x 8 mantissa classes x {exact, +-1 ulp, both rounding ties, "
          "+-1 ulp around each tie} x sign; subnormal, underflow and overflow boundaries; infinities; quiet/signalling "
-         "NaNs) stored into float and double through 14 paths (new, array/struct initializer, item, field, global, "
-         "cast, API-mode and libffi argument, callback and extern \"Python\" result) from floats and __float__ objects, "
-         "into both complex types part by part (+ all pairs of a 40-value subset) and into long double; every 1-byte "
-         "bytes / chosen 1-char str through cast; ~12.9k 80-bit long double patterns copied through 15 paths.  Bytes and "
-         "read-back are compared with gcc's conversion bit for bit.",
+         "NaNs) stored into float and double through 20 paths (new, array / nested array / struct dict and list / union "
+         "initializer, item, slice, field, global, cast, API-mode and libffi argument, float and double cdata in the "
+         "variadic part of a call, callback and extern \"Python\" result) and into the API-mode names 'typedef "
+         "float... ff_t' / 'typedef double... df_t' through their 16 paths, from floats, __float__ objects, double and "
+         "float cdata, ints and bools; into both complex types part by part through 13 paths (incl. extern \"Python\" "
+         "results, slice, struct dict) from complex, __complex__ objects, a cdata of the other complex type and "
+         "floats (+ all pairs of a 40-value subset) and into long double; every 1-byte bytes / chosen 1-char str "
+         "through cast; ~12.9k 80-bit long double patterns copied through 38 paths (15 stores from p[0], the value "
+         "passed INTO a callback / extern \"Python\" function and returned, variadic argument, slice from a list and "
+         "from an array, and {unpack, iteration, list(), struct field, in-line ABI global} reads x {new, item, "
+         "argument} stores).  Bytes and read-back are compared with gcc's conversion bit for bit; destinations shared "
+         "by several paths are poisoned before each store.",
     note="gcc 12 / x86-64 SSE2 round-to-nearest is the authority, reached through ctypes; NaN payloads are not compared; "
          "pseudo-denormal, unnormal and pseudo-NaN x87 encodings are excluded (they are not values)")
 
@@ -213,31 +220,62 @@ int sizeof_ld(void) { return (int)sizeof(long double); }
 
 KINDS = [("f", "float", 4), ("d", "double", 8), ("ld", "long double", 16), ("fc", "float _Complex", 8),
          ("dc", "double _Complex", 16)]
+# API mode only: the C compiler tells cffi which floating type it is ("typedef float... T": _cffi_prim_float(),
+# (T)_cffi_to_c_double() in the generated wrappers).  (kind, name, size, the type it really is)
+API_KINDS = [("ff", "ff_t", 4, "float"), ("df", "df_t", 8, "double")]
+REAL_KINDS = ("f", "d", "ld", "ff", "df")        # kinds that libffi can return from a callback
+
+
+def all_kinds(api):
+    return KINDS + ([(k, t, size) for k, t, size, _ in API_KINDS] if api else [])
 
 
 def api_source():
-    out = []
-    for k, t, size in KINDS:
+    out = ["#include <stdarg.h>\n#include <string.h>\ntypedef float ff_t; typedef double df_t;\n"]
+    for k, t, size in all_kinds(True):
         out.append("%(t)s rec_%(k)s; %(t)s g_%(k)s; int ncalls_%(k)s;\n"
                    "struct s_%(k)s { char c; %(t)s f; };\n"
-                   "%(t)s id_%(k)s(%(t)s x) { rec_%(k)s = x; ncalls_%(k)s++; return x; }\n" % dict(k=k, t=t))
-        if k in ("f", "d", "ld"):
+                   "union u_%(k)s { %(t)s f; char pad[32]; };\n"
+                   "%(t)s id_%(k)s(%(t)s x) { rec_%(k)s = x; ncalls_%(k)s++; return x; }\n"
+                   "static %(t)s ep_%(k)s(void);\n"
+                   "%(t)s call_ep_%(k)s(void) { rec_%(k)s = ep_%(k)s(); return rec_%(k)s; }\n" % dict(k=k, t=t))
+        if k in REAL_KINDS:
             out.append("%(t)s call_cb_%(k)s(%(t)s (*cb)(void)) { rec_%(k)s = cb(); return rec_%(k)s; }\n"
-                       "static %(t)s ep_%(k)s(void);\n"
-                       "%(t)s call_ep_%(k)s(void) { rec_%(k)s = ep_%(k)s(); return rec_%(k)s; }\n" % dict(k=k, t=t))
+                       % dict(k=k, t=t))
+    out.append("""
+double rec_vad;
+double vad(int n, ...) { va_list ap; va_start(ap, n); rec_vad = va_arg(ap, double); va_end(ap); return rec_vad; }
+long double va_ld(int n, ...) { va_list ap; va_start(ap, n); rec_ld = va_arg(ap, long double); va_end(ap);
+    return rec_ld; }
+/* a long double that travels INTO Python as an argument and comes back as the result */
+long double echo_cb_ld(long double (*cb)(long double), long double *p) { rec_ld = cb(*p); return rec_ld; }
+static long double ep3_ld(long double, int, long double);
+long double call_ep3_ld(long double *p, int which) {
+    long double other = 0.25L;
+    rec_ld = which ? ep3_ld(other, 7, *p) : ep3_ld(*p, 7, other);
+    return rec_ld; }
+""")
     return "".join(out)
 
 
 def cdef_text(api):
     out = []
-    for k, t, size in KINDS:
-        out.append("extern %(t)s g_%(k)s;\nstruct s_%(k)s { char c; %(t)s f; };\n" % dict(k=k, t=t))
+    if api:
+        out.append("typedef float... ff_t;\ntypedef double... df_t;\n")
+    for k, t, size in all_kinds(api):
+        out.append("extern %(t)s g_%(k)s;\nstruct s_%(k)s { char c; %(t)s f; };\n"
+                   "union u_%(k)s { %(t)s f; char pad[32]; };\n" % dict(k=k, t=t))
         if api or k in ("f", "d", "ld"):
             out.append("%(t)s id_%(k)s(%(t)s);\n" % dict(k=k, t=t))
-        if k in ("f", "d", "ld"):
+        if k in REAL_KINDS:
             out.append("%(t)s call_cb_%(k)s(%(t)s (*)(void));\n" % dict(k=k, t=t))
-            if api:
-                out.append('extern "Python" %(t)s ep_%(k)s(void);\n%(t)s call_ep_%(k)s(void);\n' % dict(k=k, t=t))
+        if api:
+            out.append('extern "Python" %(t)s ep_%(k)s(void);\n%(t)s call_ep_%(k)s(void);\n' % dict(k=k, t=t))
+    out.append("double vad(int, ...);\nlong double va_ld(int, ...);\n"
+               "long double echo_cb_ld(long double (*)(long double), long double *);\n")
+    if api:
+        out.append('extern "Python" long double ep3_ld(long double, int, long double);\n'
+                   "long double call_ep3_ld(long double *, int);\n")
     return "".join(out)
 
 
@@ -292,11 +330,30 @@ class HasFloat(object):
 _W = None
 _EXP = None
 _CLS = None
+_BROKEN_API_KINDS = set()      # 'typedef float... T' names that cffi realised as another type (reported; not run)
 
 
-def scalar_paths(w, k, t, size):
-    """[(path, fn)] with fn(src) -> (stored bytes or None, read-back python float or None).
-    stored bytes come from cffi-owned memory (ffi.buffer) or from the C side (ctypes)."""
+def check_api_kinds():
+    """[(sig, detail)]: what cffi made of the 'typedef float... / double...' names must be the C type."""
+    bad = []
+    _BROKEN_API_KINDS.clear()
+    for k, t, size, real in API_KINDS:
+        try:
+            got = _W.ffi.typeof(t).cname
+        except Exception as e:
+            got = "%s: %s" % (type(e).__name__, e)
+        if got != real:
+            _BROKEN_API_KINDS.add(t)
+            bad.append(({"kind": "api-typedef-realised-as-other-type", "target": t},
+                        {"kind": "api-typedef-realised-as-other-type", "target": t, "got": got, "expected": real}))
+    return bad
+
+
+def scalar_paths(w, k, t, size, api_only=False):
+    """[(path, fn, expectation)] with fn(src) -> (stored bytes or None, read-back python float or None).
+    stored bytes come from cffi-owned memory (ffi.buffer) or from the C side (ctypes).
+    expectation: None = the conversion to t; "widened_float" = C sees (double)(float)x (a float cdata in the
+    variadic part of a call)."""
     ffi, lib = w.ffi, w.lib
     P = []
     buf = ffi.buffer
@@ -313,16 +370,39 @@ def scalar_paths(w, k, t, size):
         p = ffi.new("struct s_%s *" % k, {"f": x})
         return bytes(buf(ffi.addressof(p, "f"))), p.f
 
+    def new_struct_list(x):
+        p = ffi.new("struct s_%s *" % k, [b"x", x])
+        return bytes(buf(ffi.addressof(p, "f"))), p.f
+
+    def new_union(x):
+        p = ffi.new("union u_%s *" % k, {"f": x})
+        return bytes(buf(p))[:size], p.f
+
+    def new_nested(x):
+        p = ffi.new(t + "[2][2]", [[0.0, x]])
+        return bytes(buf(p))[size:2 * size], p[0][1]
+
+    # locations that several paths write are poisoned before each store: a store that does not happen (or writes
+    # only a part) must not be hidden by the same value left there by the previous path
+    poison = bytes([POISON]) * size
     arr = ffi.new(t + "[3]")
+    abuf = buf(arr)
 
     def item(x):
+        abuf[size:2 * size] = poison
         arr[1] = x
-        return bytes(buf(arr))[size:2 * size], arr[1]
+        return bytes(abuf)[size:2 * size], arr[1]
+
+    def setslice(x):
+        abuf[size:2 * size] = poison
+        arr[1:2] = [x]
+        return bytes(abuf)[size:2 * size], arr[1]
 
     st = ffi.new("struct s_%s *" % k)
     fld = buf(ffi.addressof(st, "f"))
 
     def field(x):
+        fld[:] = poison
         st.f = x
         return bytes(fld), st.f
 
@@ -330,10 +410,12 @@ def scalar_paths(w, k, t, size):
     gbuf = (ctypes.c_ubyte * size).in_dll(w.cdll, gname)
 
     def glob(x):
+        ctypes.memset(gbuf, POISON, size)
         setattr(lib, gname, x)
         return bytes(gbuf), getattr(lib, gname)
 
     def glob_abi(x):
+        ctypes.memset(gbuf, POISON, size)
         setattr(w.abi_lib, gname, x)
         return bytes(gbuf), getattr(w.abi_lib, gname)
 
@@ -349,6 +431,7 @@ def scalar_paths(w, k, t, size):
 
     def mk_call(f):
         def call(x):
+            ctypes.memset(rec, POISON, size)
             r = f(x)
             return bytes(rec), r
         return call
@@ -356,8 +439,25 @@ def scalar_paths(w, k, t, size):
     P += [("new", new_ptr), ("new_array", new_arr), ("new_struct", new_struct), ("item", item), ("field", field),
           ("global/api", glob), ("global/abi", glob_abi), ("cast", cast), ("cast_then_new", cast_then_store),
           ("arg/api", mk_call(getattr(lib, "id_" + k))),
-          ("arg/api_addressof", mk_call(ffi.addressof(lib, "id_" + k))),
-          ("arg/abi", mk_call(getattr(w.abi_lib, "id_" + k)))]
+          ("arg/api_addressof", mk_call(ffi.addressof(lib, "id_" + k)))]
+    if not api_only:
+        P.append(("arg/abi", mk_call(getattr(w.abi_lib, "id_" + k))))
+    else:
+        P = [e for e in P if e[0] != "global/abi"]
+    # container forms / slice store: separate branches of convert_struct_from_object, convert_array_from_object,
+    # cdata_ass_slice
+    P += [("new_struct_list", new_struct_list), ("new_union", new_union), ("new_nested_array", new_nested),
+          ("setslice", setslice)]
+    P = [(name, fn, None) for name, fn in P]
+    # a cdata in the variadic part of a call: a float is promoted to double, as C does
+    if t in ("float", "double"):
+        recv = (ctypes.c_ubyte * 8).in_dll(w.cdll, "rec_vad")
+        for mode, vlib, vffi in (("api", lib, ffi), ("abi", w.abi_lib, w.abi_ffi)):
+            def vararg(x, vlib=vlib, vffi=vffi):
+                ctypes.memset(recv, POISON, 8)
+                r = vlib.vad(1, vffi.cast(t, x))
+                return bytes(recv), r
+            P.append(("vararg_cdata/" + mode, vararg, "widened_float" if t == "float" else None))
     box = [0.0]
 
     def ret():
@@ -368,6 +468,7 @@ def scalar_paths(w, k, t, size):
 
     def cb_result(x):
         box[0] = x
+        ctypes.memset(rec, POISON, size)
         r = caller(cb)
         return bytes(rec), r
     ffi.def_extern(name="ep_" + k)(ret)
@@ -375,26 +476,31 @@ def scalar_paths(w, k, t, size):
 
     def ep_result(x):
         box[0] = x
+        ctypes.memset(rec, POISON, size)
         r = epcaller()
         return bytes(rec), r
-    P += [("callback_result", cb_result), ("extern_python_result", ep_result)]
+    P += [("callback_result", cb_result, None), ("extern_python_result", ep_result, None)]
     return P
 
 
 w_keep = []
+POISON = 0xDD       # 0xDDDD... is an ordinary (normal, negative) value in all three formats, not a NaN
 
 
 def check_scalars(payload, only=None):
-    """float and double targets from a Python float for every pattern; for the patterns flagged 'full' also
-    from a __float__ object and into long double.  payload = [(bits, full)]."""
+    """float and double targets (and the API-mode 'typedef float... / double...' names for them) from a Python
+    float for every pattern; for the patterns flagged 'full' also from a __float__ object, from a double and a float
+    cdata, from an int / bool where the value is one, and into long double.  payload = [(bits, full)]."""
     w = _W
+    ffi = w.ffi
     bad = []
     hist = {}
     n = 0
     paths = {}
     for k, t, size in KINDS[:3]:
         paths[t] = scalar_paths(w, k, t, size)
-    npath = {t: len(paths[t]) for t in paths}
+    for k, t, size, real in API_KINDS:
+        paths[t] = scalar_paths(w, k, t, size, api_only=True) if t not in _BROKEN_API_KINDS else []
     pack = struct.pack
 
     def report(kind, t, path, sname, b, **kw):
@@ -409,25 +515,42 @@ def check_scalars(payload, only=None):
         fbytes, wbytes, ldbytes = _EXP[b]
         xbytes = pack("<Q", b)
         nan = is_nan_bits64(b)
-        srcs = (("float", x), ("__float__", HasFloat(x))) if full else (("float", x),)
-        for t, want_raw, want_back in (("float", fbytes, wbytes), ("double", xbytes, xbytes),
-                                       ("long double", ldbytes, None)):
-            isld = want_back is None
+        # (source name, object, narrowed: the source itself already holds (float)x)
+        srcs = [("float", x, False)]
+        if full:
+            srcs += [("__float__", HasFloat(x), False), ("cdata_double", ffi.cast("double", x), False),
+                     ("cdata_float", ffi.cast("float", x), True)]
+            if not nan and not math.isinf(x) and x == math.floor(x) and (x != 0.0 or b == 0):
+                srcs.append(("int", int(x), False))         # ints have __float__; int(x) is exact here
+                if x in (0.0, 1.0):
+                    srcs.append(("bool", bool(x), False))
+        for t, tkind in (("float", "f"), ("double", "d"), ("long double", "ld"), ("ff_t", "f"), ("df_t", "d")):
+            isld = tkind == "ld"
             if isld and not full:
                 continue
-            if only is None:
-                n += len(srcs) * (npath[t] - isld)
-            for path, fn in paths[t]:
+            for path, fn, expectation in paths[t]:
                 if isld and path == "cast":
                     continue                # nothing observable without a second store
-                if only is None:
-                    hk = t + ":" + path
-                    hist[hk] = hist.get(hk, 0) + len(srcs)
-                for sname, src in srcs:
-                    if only is not None:
-                        if (t, path, sname) != only:
-                            continue
-                        n += 1
+                for sname, src, narrowed in srcs:
+                    if only is not None and (t, path, sname) != only:
+                        continue
+                    if isld and narrowed:
+                        continue            # (long double)(float)x: no reference computed for it
+                    n += 1
+                    if only is None:
+                        hk = t + ":" + path
+                        hist[hk] = hist.get(hk, 0) + 1
+                        if sname != "float":
+                            hk = "source:" + sname
+                            hist[hk] = hist.get(hk, 0) + 1
+                    if tkind == "f" and expectation is None:
+                        want_raw, want_back = fbytes, wbytes
+                    elif tkind == "f" or (tkind == "d" and narrowed):
+                        want_raw, want_back = wbytes, wbytes          # C sees / stores (double)(float)x
+                    elif tkind == "d":
+                        want_raw, want_back = xbytes, xbytes
+                    else:
+                        want_raw, want_back = ldbytes, None
                     try:
                         raw, back = fn(src)
                     except Exception as e:
@@ -472,25 +595,40 @@ def complex_paths(w, k, t, half):
     def new_struct(z):
         p = ffi.new("struct s_%s *" % k, [b"x", z])
         return bytes(buf(ffi.addressof(p, "f"))), p.f
+
+    def new_struct_dict(z):
+        p = ffi.new("struct s_%s *" % k, {"f": z})
+        return bytes(buf(ffi.addressof(p, "f"))), p.f
+    poison = bytes([POISON]) * size
     arr = ffi.new(t + "[3]")
+    abuf = buf(arr)
 
     def item(z):
+        abuf[2 * size:] = poison
         arr[2] = z
-        return bytes(buf(arr))[2 * size:], arr[2]
+        return bytes(abuf)[2 * size:], arr[2]
+
+    def setslice(z):
+        abuf[2 * size:] = poison
+        arr[2:3] = (z,)
+        return bytes(abuf)[2 * size:], arr[2]
     st = ffi.new("struct s_%s *" % k)
     fld = buf(ffi.addressof(st, "f"))
 
     def field(z):
+        fld[:] = poison
         st.f = z
         return bytes(fld), st.f
     gname = "g_" + k
     gbuf = (ctypes.c_ubyte * size).in_dll(w.cdll, gname)
 
     def glob(z):
+        ctypes.memset(gbuf, POISON, size)
         setattr(lib, gname, z)
         return bytes(gbuf), getattr(lib, gname)
 
     def glob_abi(z):
+        ctypes.memset(gbuf, POISON, size)
         setattr(w.abi_lib, gname, z)
         return bytes(gbuf), getattr(w.abi_lib, gname)
 
@@ -504,11 +642,31 @@ def complex_paths(w, k, t, half):
     idf = getattr(lib, "id_" + k)
 
     def arg(z):
+        ctypes.memset(rec, POISON, size)
         r = idf(z)
+        return bytes(rec), r
+    # extern "Python" with a complex result (ffi.callback refuses complex results: libffi)
+    box = [0j]
+    ffi.def_extern(name="ep_" + k)(lambda: box[0])
+    epcaller = getattr(lib, "call_ep_" + k)
+
+    def ep_result(z):
+        box[0] = z
+        ctypes.memset(rec, POISON, size)
+        r = epcaller()
         return bytes(rec), r
     return [("new", new_ptr), ("new_array", new_arr), ("new_struct", new_struct), ("item", item), ("field", field),
             ("global/api", glob), ("global/abi", glob_abi), ("cast", cast), ("cast_then_new", cast_then_store),
-            ("arg/api", arg)]
+            ("arg/api", arg), ("extern_python_result", ep_result), ("new_struct_dict", new_struct_dict),
+            ("setslice", setslice)]
+
+
+class HasComplex(object):
+    def __init__(self, z):
+        self.z = z
+
+    def __complex__(self):
+        return self.z
 
 
 def coarse_class(cls):
@@ -523,22 +681,26 @@ def coarse_class(cls):
 
 
 def check_complex(pairs, only=None):
+    """pairs = [(bits of the real part, bits of the imaginary part, full)].  Every pair is stored from a Python
+    complex; the 'full' pairs also from an object with __complex__, from a cdata of the other complex type (the
+    float _Complex one has already narrowed both parts) and, where the imaginary part is +0.0, from a Python float."""
     w = _W
+    ffi = w.ffi
     bad = []
     hist = {}
     n = 0
     paths = {t: complex_paths(w, k, t, half) for t, (k, half) in CPLX_T.items()}
     pack = struct.pack
 
-    def report(kind, t, path, bre, bim, z, **kw):
-        sig = {"kind": kind, "target": t, "path": path, "source": "complex",
+    def report(kind, t, path, sname, bre, bim, z, **kw):
+        sig = {"kind": kind, "target": t, "path": path, "source": sname,
                "value_class": "%s|%s" % (coarse_class(_CLS[bre]), coarse_class(_CLS[bim]))}
-        det = {"kind": kind, "target": t, "path": path, "source": "complex", "bits": bre, "bits_imag": bim,
+        det = {"kind": kind, "target": t, "path": path, "source": sname, "bits": bre, "bits_imag": bim,
                "value": repr(z)}
         det.update(kw)
         bad.append((sig, det))
 
-    for bre, bim in pairs:
+    for bre, bim, full in pairs:
         z = complex(fromb(bre), fromb(bim))
         nans = (is_nan_bits64(bre), is_nan_bits64(bim))
         # the constructor must not have disturbed the parts (the harness relies on it)
@@ -546,40 +708,56 @@ def check_complex(pairs, only=None):
             raise InfraError("complex() changed a part")
         anynan = nans[0] or nans[1]
         for t, (k, half) in CPLX_T.items():
-            if half == 4:
-                want_parts = (_EXP[bre][0], _EXP[bim][0])
-                want_back = (_EXP[bre][1], _EXP[bim][1])
-            else:
-                want_parts = want_back = (pack("<Q", bre), pack("<Q", bim))
-            want_raw = want_parts[0] + want_parts[1]
-            for path, fn in paths[t]:
-                if only is not None and (t, path, "complex") != only:
-                    continue
-                n += 1
-                hk = t + ":" + path
-                hist[hk] = hist.get(hk, 0) + 1
-                try:
-                    raw, back = fn(z)
-                except Exception as e:
-                    report("raised", t, path, bre, bim, z, error="%s: %s" % (type(e).__name__, e))
-                    continue
-                if raw is not None and raw != want_raw:
-                    ok = anynan
-                    if anynan:
-                        for j in (0, 1):
-                            part = raw[j * half:(j + 1) * half]
-                            if not (is_nan_bytes(part) if nans[j] else part == want_parts[j]):
-                                ok = False
-                    if not ok:
-                        report("stored-bytes", t, path, bre, bim, z, got=raw.hex(), expected=want_raw.hex())
+            narrow = (_EXP[bre][0], _EXP[bim][0]), (_EXP[bre][1], _EXP[bim][1])
+            exact = (pack("<Q", bre), pack("<Q", bim))
+            # (source name, object, narrowed: the source holds ((float)re, (float)im))
+            srcs = [("complex", z, False)]
+            if full:
+                other = [o for o in CPLX_T if o != t][0]
+                srcs += [("__complex__", HasComplex(z), False),
+                         ("cdata_other_complex", ffi.cast(other, z), CPLX_T[other][1] == 4)]
+                if bim == 0:
+                    srcs.append(("float", z.real, False))
+            for sname, src, narrowed in srcs:
+                if half == 4:
+                    want_parts, want_back = narrow
+                elif narrowed:
+                    want_parts = want_back = narrow[1]
+                else:
+                    want_parts = want_back = exact
+                want_raw = want_parts[0] + want_parts[1]
+                for path, fn in paths[t]:
+                    if only is not None and (t, path, sname) != only:
                         continue
-                if type(back) is not complex:
-                    report("readback-type", t, path, bre, bim, z, got=repr(back))
-                    continue
-                br, bi = back.real, back.imag
-                if not ((br != br if nans[0] else pack("<d", br) == want_back[0]) and
-                        (bi != bi if nans[1] else pack("<d", bi) == want_back[1])):
-                    report("readback", t, path, bre, bim, z, got=repr(back))
+                    n += 1
+                    if only is None:
+                        hk = t + ":" + path
+                        hist[hk] = hist.get(hk, 0) + 1
+                        if sname != "complex":
+                            hk = "complex_source:" + sname
+                            hist[hk] = hist.get(hk, 0) + 1
+                    try:
+                        raw, back = fn(src)
+                    except Exception as e:
+                        report("raised", t, path, sname, bre, bim, z, error="%s: %s" % (type(e).__name__, e))
+                        continue
+                    if raw is not None and raw != want_raw:
+                        ok = anynan
+                        if anynan:
+                            for j in (0, 1):
+                                part = raw[j * half:(j + 1) * half]
+                                if not (is_nan_bytes(part) if nans[j] else part == want_parts[j]):
+                                    ok = False
+                        if not ok:
+                            report("stored-bytes", t, path, sname, bre, bim, z, got=raw.hex(), expected=want_raw.hex())
+                            continue
+                    if type(back) is not complex:
+                        report("readback-type", t, path, sname, bre, bim, z, got=repr(back))
+                        continue
+                    br, bi = back.real, back.imag
+                    if not ((br != br if nans[0] else pack("<d", br) == want_back[0]) and
+                            (bi != bi if nans[1] else pack("<d", bi) == want_back[1])):
+                        report("readback", t, path, sname, bre, bim, z, got=repr(back))
     return n, hist, bad
 
 
@@ -636,9 +814,24 @@ def ld_paths(w):
     rec = w.rec("ld", 16)
     gbuf = (ctypes.c_ubyte * 16).in_dll(w.cdll, "g_ld")
 
+    # other places a long double can be read from: an array (iteration, unpack), a struct field, a global seen
+    # through the in-line ABI library
+    srcarr = ffi.new("long double[1]")
+    sarrbuf = buf(srcarr)
+    srcst = ffi.new("struct s_ld *")
+    sstbuf = buf(ffi.addressof(srcst, "f"))
+
     def load(raw10):
         sbuf[:] = raw10 + b"\xEE" * 6
+        sarrbuf[:] = sbuf[:]
+        sstbuf[:] = sbuf[:]
+        # every destination that several paths write: see POISON
+        abuf[:] = poison2
+        fld[:] = poison2[:16]
+        ctypes.memset(rec, POISON, 16)
+        ctypes.memset(gbuf, POISON, 16)
         return src
+    poison2 = bytes([POISON]) * 32
 
     def p_new(s):
         return bytes(buf(ffi.new("long double *", s[0])))
@@ -650,6 +843,7 @@ def ld_paths(w):
         p = ffi.new("struct s_ld *", {"f": s[0]})
         return bytes(buf(ffi.addressof(p, "f")))
     arr = ffi.new("long double[2]")
+    abuf = buf(arr)
 
     def p_item(s):
         arr[1] = s[0]
@@ -707,10 +901,77 @@ def ld_paths(w):
         box[0] = s[0]
         lib.call_ep_ld()
         return bytes(rec)
-    return load, [("new", p_new), ("new_array", p_new_arr), ("new_struct", p_new_struct), ("item", p_item),
-                  ("field", p_field), ("cast_then_new", p_cast), ("global/api", p_glob), ("global_read/api", p_glob_read),
-                  ("global/abi", p_glob_abi), ("arg/api", p_arg), ("return/api", p_ret), ("arg/abi", p_arg_abi),
-                  ("return/abi", p_ret_abi), ("callback_result", p_cb), ("extern_python_result", p_ep)]
+    P = [("new", p_new), ("new_array", p_new_arr), ("new_struct", p_new_struct), ("item", p_item),
+         ("field", p_field), ("cast_then_new", p_cast), ("global/api", p_glob), ("global_read/api", p_glob_read),
+         ("global/abi", p_glob_abi), ("arg/api", p_arg), ("return/api", p_ret), ("arg/abi", p_arg_abi),
+         ("return/abi", p_ret_abi), ("callback_result", p_cb), ("extern_python_result", p_ep)]
+
+    # the value travels INTO Python as an argument (libffi args[] for ffi.callback, a pointer slot written by the
+    # generated trampoline for extern "Python") and comes back as the result
+    echo = ffi.callback("long double(long double)", lambda a: a)
+    w_keep.append(echo)
+
+    def p_cb_arg(s):
+        lib.echo_cb_ld(echo, s)
+        return bytes(rec)
+    sel = [0]
+    ffi.def_extern(name="ep3_ld")(lambda a, n7, b: b if sel[0] else a)
+
+    def p_ep_arg_first(s):
+        sel[0] = 0
+        lib.call_ep3_ld(s, 0)
+        return bytes(rec)
+
+    def p_ep_arg_third(s):
+        sel[0] = 1
+        lib.call_ep3_ld(s, 1)
+        return bytes(rec)
+
+    def p_vararg(s):
+        lib.va_ld(1, s[0])
+        return bytes(rec)
+
+    def p_vararg_abi(s):
+        w.abi_lib.va_ld(1, s[0])
+        return bytes(rec)
+
+    # slice stores: from a list (item loop) and from an array cdata of the same type (memmove fast path)
+    def p_slice_list(s):
+        arr[1:2] = [s[0]]
+        return bytes(buf(arr))[16:]
+
+    def p_slice_array(s):
+        arr[1:2] = srcarr
+        return bytes(buf(arr))[16:]
+
+    def p_new_struct_list(s):
+        p = ffi.new("struct s_ld *", [b"x", s[0]])
+        return bytes(buf(ffi.addressof(p, "f")))
+    P += [("callback_arg", p_cb_arg), ("extern_python_arg/first", p_ep_arg_first),
+          ("extern_python_arg/third", p_ep_arg_third), ("vararg/api", p_vararg), ("vararg/abi", p_vararg_abi),
+          ("setslice_list", p_slice_list), ("setslice_array", p_slice_array), ("new_struct_list", p_new_struct_list)]
+
+    # read paths x store paths
+    def rd_global_abi():
+        ctypes.memmove(gbuf, bytes(sbuf), 16)
+        return w.abi_lib.g_ld
+    readers = [("unpack", lambda: ffi.unpack(src, 1)[0]), ("iter", lambda: next(iter(srcarr))),
+               ("list", lambda: list(srcarr)[0]), ("field", lambda: srcst.f), ("global/abi", rd_global_abi)]
+
+    def st_new(v):
+        return bytes(buf(ffi.new("long double *", v)))
+
+    def st_item(v):
+        arr[1] = v
+        return bytes(buf(arr))[16:]
+
+    def st_arg(v):
+        lib.id_ld(v)
+        return bytes(rec)
+    for rname, rd in readers:
+        for sname, store in (("new", st_new), ("item", st_item), ("arg/api", st_arg)):
+            P.append(("%s<-%s" % (sname, rname), lambda s, rd=rd, store=store: store(rd())))
+    return load, P
 
 
 def check_ld(pats, only=None):
@@ -766,6 +1027,8 @@ def setup(tag, quick):
 def run(ctx):
     allbits, sub = setup("all", ctx.quick)
     ctx.log("world built; %d double patterns" % len(allbits))
+    for sig, info in check_api_kinds():
+        ctx.violation(sig, info)
     old_hook = sys.unraisablehook
     for b in allbits:
         ctx.count("double:" + _CLS[b])
@@ -787,7 +1050,13 @@ def run(ctx):
     if not ctx.quick:
         c0 = dbits(-1.5)
         cpairs += [(b, c0) for b in allbits] + [(c0, b) for b in allbits]
-    cpairs = sorted(set(cpairs))
+    # 'full' pairs (also stored from a __complex__ object, from a cdata of the other complex type and, the
+    # imaginary part being +0.0, from a Python float): all subset pairs + every 'full' pattern with +0.0
+    subset_pairs = set((a, b) for a in sub for b in sub)
+    real_only = set((allbits[i], 0) for i in range(nb) if payload[i][1])
+    cfull = subset_pairs | real_only
+    cpairs = sorted(set(cpairs) | cfull)
+    cpairs = [(a, b, (a, b) in cfull) for a, b in cpairs]
     ldp, ld_excluded = ld_patterns(ctx.quick)
     lditems = sorted(ldp.items())
     for _, c in lditems:
@@ -830,11 +1099,15 @@ def run(ctx):
         "rule": "doubles: for each of the 255 float exponents (0 = subnormal floats) x mantissa in %s x {the float, +-1 "
                 "double-ulp, the tie with the next float up and down, +-1 double-ulp around each tie} x sign, + double "
                 "max/min/subnormals, overflow and underflow boundaries, infinities, 7 NaN payloads x sign; each stored "
-                "into float and double through every path from a Python float; %s also from a __float__ object and "
-                "into long double through every path; %s as real and as imaginary part of both complex types + all "
-                "40x40 pairs of a subset; 256 bytes + 16 str "
+                "into float and double (and the API-mode 'typedef float.../double...' names) through every path from a "
+                "Python float; %s also from a __float__ object, a double cdata, a float cdata, an int / bool where "
+                "the value is one, and into long double through every path; %s as real and as imaginary part of both "
+                "complex types + all 40x40 pairs of a subset; the subset pairs and every such pattern with imaginary "
+                "part +0.0 also from a __complex__ object, a cdata of the other complex type and a Python float; 256 "
+                "bytes + 16 str "
                 "through cast; long double: %s exponents x 12 mantissa patterns (6 denormal, 7 NaN/inf) x sign through "
-                "15 copy paths; non-trivial = distinct double patterns that are not exactly representable as a float "
+                "38 copy paths (stores x read paths, callback / extern \"Python\" arguments, variadic arguments, "
+                "slices); non-trivial = distinct double patterns that are not exactly representable as a float "
                 "(the conversion has to round, overflow, underflow or keep a NaN)" % (
                     "{0,1,2,mid-1,mid,mid+1,max-1,max}" if ctx.quick else
                     "{0..15, max-15..max, 2^k, 2^k-1, mid+-1, 0x2AAAAA, 0x555555} (%d values)" % len(mantissas(False)),
@@ -863,15 +1136,20 @@ def replay(detail):
     if kind == "crash":
         print(detail)
         return 1
+    if kind == "api-typedef-realised-as-other-type":
+        bad = [b for b in check_api_kinds() if b[1]["target"] == detail["target"]]
+        print("typedef float.../double... %s: %s" % (detail["target"], bad[0][1] if bad else "realised as the C type"))
+        return 1 if bad else 0
+    check_api_kinds()
     t, path, source = detail["target"], detail["path"], detail["source"]
     if source == "long double":
         pat = int.from_bytes(bytes.fromhex(detail["pattern"]), "little")
         n, hist, bad = check_ld([(pat, "replay")], only=(t, path, source))
-    elif source == "complex":
+    elif "bits_imag" in detail:
         for b in (detail["bits"], detail["bits_imag"]):
             _CLS.setdefault(b, "replay")
         _EXP.update(_W.expected([detail["bits"], detail["bits_imag"]]))
-        n, hist, bad = check_complex([(detail["bits"], detail["bits_imag"])], only=(t, path, source))
+        n, hist, bad = check_complex([(detail["bits"], detail["bits_imag"], True)], only=(t, path, source))
     elif source in ("bytes", "str"):
         n, hist, bad = check_chars(only=(t, path, source, detail["code"]))
     else:
